@@ -1,4 +1,5 @@
 import Mamba.Model.Dawg
+import Mamba.Gen.DawgConsts
 /-!
 Model of the serialisation half of `dawg/dawg.go` (C14): `encodeUint64`, `decodeUint64`, `listNodesCountEdges`,
 `numberOfNodes`, `GobEncode`, `GobDecode`.
@@ -12,40 +13,82 @@ binary search returns on the sorted slices the code keeps (assumption recorded i
 -/
 namespace Dawg
 
-/-! ### variable-length unsigned integers -/
+/-! ### variable-length unsigned integers
 
-/-- big-endian bytes of `x`, exactly `n` of them (the low `n` bytes) -/
-def beBytes : Nat → Nat → List Nat
-  | 0, _ => []
-  | n + 1, x => beBytes n (x / 256) ++ [x % 256]
+Every literal of `encodeUint64` / `decodeUint64` is a field of `VarintCfg`; the functions the driver runs are the
+instances at `genCfg`, whose fields are regenerated from `dawg/dawg.go` on every run (`Mamba/Gen/DawgConsts.lean`). -/
 
-/-- number of bytes needed for `x` (`8 - LeadingZeros64(x)>>3`), for `x < 2^64`; 0 for 0 -/
-def byteLen : Nat → Nat → Nat
-  | 0, _ => 0
-  | fuel + 1, x => if x = 0 then 0 else byteLen fuel (x / 256) + 1
+/-- result of a modelled call that can also return a Go `error` -/
+inductive DecRes (α : Type) where
+  | ok : α → DecRes α
+  | err : DecRes α       -- an `error` was returned (short input, over-long integer)
+  | panic : DecRes α     -- index / slice bound out of range
+  deriving Repr, DecidableEq
 
-/-- `encodeUint64(x, buf)` for `x < 2^64` -/
-def encodeUint64 (x : Nat) : List Nat :=
-  if x ≤ 127 then [x]
+structure VarintCfg where
+  encBelow : Nat        -- `if x <= 127`               (exclusive bound)
+  lzBits : Nat          -- `bits.LeadingZeros64`
+  lzShift : Nat         -- `>> 3`
+  encBufFull : Nat      -- `buf[:9-zeroBytes]`
+  encPrefixSum : Nat    -- `128 + 8` in `buf[0] = 128 + 8 - byte(zeroBytes)`
+  encLoopBound : Nat    -- `i < 8-zeroBytes`
+  encDstOffset : Nat    -- `buf[1+i]`
+  encShiftUnit : Nat    -- `8*(7-(i+zeroBytes))`
+  encShiftTop : Nat
+  decBelow : Nat        -- `if buf[0] <= 127`          (exclusive bound)
+  decPrefixBase : Nat   -- `n = int(b) - 128`
+  decTooManyFrom : Nat  -- `if n > 8`                  (inclusive bound)
+  decShift : Nat        -- `x<<8 | uint64(b)`
+  decBufSize : Nat      -- `make([]byte, 9)` in GobDecode: `buf[0:n]` panics beyond it
+  found : Bool          -- every constant was recognised in the source
+  deriving Repr
+
+/-- the constants as they are in the Go source now -/
+def genCfg : VarintCfg :=
+  { encBelow := Gen.Dawg.encBelow, lzBits := Gen.Dawg.lzBits, lzShift := Gen.Dawg.lzShift,
+    encBufFull := Gen.Dawg.encBufFull, encPrefixSum := Gen.Dawg.encPrefixSum, encLoopBound := Gen.Dawg.encLoopBound,
+    encDstOffset := Gen.Dawg.encDstOffset, encShiftUnit := Gen.Dawg.encShiftUnit, encShiftTop := Gen.Dawg.encShiftTop,
+    decBelow := Gen.Dawg.decBelow, decPrefixBase := Gen.Dawg.decPrefixBase, decTooManyFrom := Gen.Dawg.decTooManyFrom,
+    decShift := Gen.Dawg.decShift, decBufSize := Gen.Dawg.decBufSize,
+    found := Gen.Dawg.foundVarint && Gen.Dawg.foundBuffers }
+
+/-- `bits.LeadingZeros<bits>(x)` -/
+def lz (bits x : Nat) : Nat := bits - (if x = 0 then 0 else x.log2 + 1)
+
+/-- `encodeUint64(x, buf)` for `x < 2^64`. The bytes are laid out as the code writes them into `buf` (first byte,
+value bytes from `buf[1+i]`, result `buf[:9-zeroBytes]`); positions of `buf` the call does not write are modelled as 0
+(they can only show when the constants are inconsistent). Byte conversions are `% 256`. -/
+def encodeUint64With (c : VarintCfg) (x : Nat) : List Nat :=
+  if x < c.encBelow then [x]
   else
-    let n := byteLen 8 x
-    (128 + n) :: beBytes n x
+    let zb := lz c.lzBits x >>> c.lzShift
+    let first := (c.encPrefixSum - zb) % 256
+    let body := (List.range (c.encLoopBound - zb)).map
+      (fun i => (x >>> (c.encShiftUnit * (c.encShiftTop - (i + zb)))) % 256)
+    ((first :: List.replicate (c.encDstOffset - 1) 0 ++ body) ++ List.replicate c.encBufFull 0).take (c.encBufFull - zb)
 
-/-- big-endian value of a byte list (`x = x<<8 | b`) -/
-def beValue (acc : Nat) : List Nat → Nat
+def encodeUint64 (x : Nat) : List Nat := encodeUint64With genCfg x
+
+/-- big-endian value of a byte list (`x = x<<8 | uint64(b)`, the shift wraps at 64 bits) -/
+def beValueWith (s : Nat) (acc : Nat) : List Nat → Nat
   | [] => acc
-  | b :: bs => beValue (acc * 256 + b) bs
+  | b :: bs => beValueWith s (((acc <<< s) % 2 ^ 64) ||| b) bs
 
-/-- `decodeUint64(r, buf)`: `none` = an error was returned; otherwise the value and the rest of the input -/
-def decodeUint64 : List Nat → Option (Nat × List Nat)
-  | [] => none
+/-- `decodeUint64(r, buf)`: the value and the rest of the input, or an error (empty / short input, too many bytes),
+or a panic (`buf[0:n]` with `n` negative or beyond the buffer) -/
+def decodeUint64With (c : VarintCfg) : List Nat → DecRes (Nat × List Nat)
+  | [] => .err
   | b :: rest =>
-    if b ≤ 127 then some (b, rest)
+    if b < c.decBelow then .ok (b, rest)
+    else if b < c.decPrefixBase then .panic            -- n < 0: `n > 8` is false, `buf[0:n]` panics
     else
-      let n := b - 128
-      if n > 8 then none
-      else if rest.length < n then none
-      else some (beValue 0 (rest.take n), rest.drop n)
+      let n := b - c.decPrefixBase
+      if c.decTooManyFrom ≤ n then .err
+      else if c.decBufSize < n then .panic             -- `buf[0:n]` beyond the buffer
+      else if rest.length < n then .err
+      else .ok (beValueWith c.decShift 0 (rest.take n), rest.drop n)
+
+def decodeUint64 (inp : List Nat) : DecRes (Nat × List Nat) := decodeUint64With genCfg inp
 
 /-! ### the explicit-stack traversal -/
 
@@ -80,7 +123,7 @@ def encLinks (h : Heap) (conv : Nat → Nat) : List Nat → List Nat → Outcome
 def encRecord (h : Heap) (conv : Nat → Nat) (n : Node) : Outcome (List Nat) :=
   match encLinks h conv n.labels n.links with
   | .ok r =>
-    .ok (encodeUint64 (conv n.id) ++ encodeUint64 n.numWords ++ [if n.final then 1 else 0]
+    .ok (encodeUint64 (conv n.id) ++ encodeUint64 n.numWords ++ [if n.final then Gen.Dawg.finalTrueByte else Gen.Dawg.finalFalseByte]
           ++ encodeUint64 n.labels.length ++ r)
   | .panic => .panic
   | .outOfFuel => .outOfFuel
@@ -179,20 +222,14 @@ def gobEncode (fuel : Nat) (d : Dawg) : Outcome (List Nat) :=
 
 /-! ### GobDecode -/
 
-/-- result of a modelled call that can also return a Go `error` -/
-inductive DecRes (α : Type) where
-  | ok : α → DecRes α
-  | err : DecRes α       -- an `error` was returned (short input, over-long integer)
-  | panic : DecRes α     -- index out of range
-  deriving Repr
-
 /-- `for i = 0; i < numNodes; i++ { ts[i].id = decodeUint64 }` -/
 def decIds (ts : Heap) : Nat → Nat → List Nat → DecRes (Heap × List Nat)
   | 0, _, inp => .ok (ts, inp)
   | k + 1, i, inp =>
     match decodeUint64 inp with
-    | none => .err
-    | some (x, inp1) =>
+    | .err => .err
+    | .panic => .panic
+    | .ok (x, inp1) =>
       match ts[i]? with
       | none => .panic
       | some n => decIds (ts.setIfInBounds i { n with id := x }) k (i + 1) inp1
@@ -205,8 +242,9 @@ def decChildren (ts : Heap) (idx : Nat) : Nat → List Nat → DecRes (Heap × L
     | [] => .err
     | label :: inp1 =>
       match decodeUint64 inp1 with
-      | none => .err
-      | some (target, inp2) =>
+      | .err => .err
+      | .panic => .panic
+      | .ok (target, inp2) =>
         -- `ts[indexID].linkLabels = append(...)`, then `ts[indexID].links = append(..., ts[target])`
         match ts[idx]? with
         | none => .panic
@@ -220,11 +258,13 @@ def decRecords (ts : Heap) : Nat → List Nat → DecRes (Heap × List Nat)
   | 0, inp => .ok (ts, inp)
   | k + 1, inp =>
     match decodeUint64 inp with
-    | none => .err
-    | some (idx, inp1) =>
+    | .err => .err
+    | .panic => .panic
+    | .ok (idx, inp1) =>
       match decodeUint64 inp1 with
-      | none => .err
-      | some (numWords, inp2) =>
+      | .err => .err
+      | .panic => .panic
+      | .ok (numWords, inp2) =>
         match ts[idx]? with
         | none => .panic
         | some n0 =>
@@ -232,11 +272,12 @@ def decRecords (ts : Heap) : Nat → List Nat → DecRes (Heap × List Nat)
           match inp2 with
           | [] => .err
           | fin :: inp3 =>
-            let ts2 := ts1.setIfInBounds idx { n0 with numWords := numWords, final := (fin ≠ 0) }
+            let ts2 := ts1.setIfInBounds idx { n0 with numWords := numWords, final := Gen.Dawg.decFinalSet fin }
             match decodeUint64 inp3 with
-            | none => .err
-            | some (numChild, inp4) =>
-              let ts3 := ts2.setIfInBounds idx { n0 with numWords := numWords, final := (fin ≠ 0), labels := [], links := [] }
+            | .err => .err
+            | .panic => .panic
+            | .ok (numChild, inp4) =>
+              let ts3 := ts2.setIfInBounds idx { n0 with numWords := numWords, final := Gen.Dawg.decFinalSet fin, labels := [], links := [] }
               match decChildren ts3 idx numChild inp4 with
               | .ok (ts4, inp5) => decRecords ts4 k inp5
               | .err => .err
@@ -245,9 +286,13 @@ def decRecords (ts : Heap) : Nat → List Nat → DecRes (Heap × List Nat)
 /-- `(t *Dawg) GobDecode(b)` into a zero-value receiver: heap `ts`, root `ts[0]` -/
 def gobDecode (b : List Nat) : DecRes Dawg :=
   match decodeUint64 b with
-  | none => .err
-  | some (numNodes, inp) =>
+  | .err => .err
+  | .panic => .panic
+  | .ok (numNodes, inp) =>
     if numNodes = 0 then .panic          -- `ts[0] = t` on an empty slice
+    else if inp.length < numNodes then .err
+      -- every id takes at least one byte, so the id loop below would end in an error anyway; answering here keeps the
+      -- driver from allocating `numNodes` cells for a garbage count (Go allocates them, or dies trying)
     else
       match decIds (Array.replicate numNodes Node.zero) numNodes 0 inp with
       | .ok (ts, inp1) =>
